@@ -4,6 +4,9 @@ from poolfam import *  # noqa
 
 PID = "C16"
 SALS = [9, 5, 5, 1, -2]
+# the always-failing rule pd never TIES with another rule: among equal saliences the order is Go's map iteration order, and with
+# pd in a tie the result of the mix / inverse-mix models would depend on it (a false alarm of seed 21 before this was separated)
+SALS_PD = [12, 7, 4, 0, -4]
 
 
 class Gen:
@@ -15,7 +18,7 @@ class Gen:
         self.ver += 1
         # the rule named "pd" always FAILS (Pool/Check.v probe_fails): with a failing rule in the set the result map depends on
         # the execution model, so the model the pool really uses becomes observable
-        return [{"name": n, "sal": self.rng.choice(SALS), "desc": "v%d" % self.ver, "kind": "fail" if n == "pd" else "ret", "ver": self.ver} for n in names]
+        return [{"name": n, "sal": self.rng.choice(SALS_PD if n == "pd" else SALS), "desc": "v%d" % self.ver, "kind": "fail" if n == "pd" else "ret", "ver": self.ver} for n in names]
 
     def op(self, kind=None):
         r = self.rng
@@ -82,7 +85,7 @@ def make_scenarios(rng, tier):
     # each of the four models (set after, and before, the update)
     def fixed_rules(order):
         g.ver += 1
-        return [{"name": n, "sal": 9 - 4 * i, "desc": "v%d" % g.ver, "kind": "fail" if n == "pd" else "ret", "ver": g.ver} for i, n in enumerate(order)]
+        return [{"name": n, "sal": (12, 7, 0)[i] if n == "pd" else 9 - 4 * i, "desc": "v%d" % g.ver, "kind": "fail" if n == "pd" else "ret", "ver": g.ver} for i, n in enumerate(order)]
     for order in (["pd", "pa", "pb"], ["pa", "pd", "pb"], ["pa", "pb", "pd"], ["pd", "pa"], ["pa", "pd"]):
         for m in (1, 2, 3, 4):
             scs.append(scenario(sid, 1, 2, [{"op": "update", "rules": fixed_rules(order)}, {"op": "setmodel", "model": m}], g))
